@@ -23,6 +23,7 @@ template <class Real_, int D_, int NV_, class Data_, class Rhs_, int NRHS_, clas
 struct Flavour {
     using Real = Real_; using Data = Data_; using Rhs = Rhs_; using Space = Space_;
     static constexpr int D = D_, NV = NV_, NRHS = NRHS_;
+    static constexpr bool IsMorton = std::is_same<Space_, tbx::Morton<Real_, D_, false>>::value || std::is_same<Space_, tbx::Morton<Real_, D_, true>>::value;
     using Cfg = tbx::Config<Real, D>;
     using Cell = std::array<long, 1>;
     using Tree = TbfTree<Real, Data, NV, Rhs, NRHS, Cell, Cell, Space>;
@@ -112,6 +113,7 @@ template <class F> Input<F> randomInput(vh::Rng& r, uint64_t seed, long maxN, bo
     const auto bss = tbx::blockSizesFor(std::min(nbLeavesMax, N), false);
     in.blockSize = bss[r.below(bss.size())];
     if (r.coin(0.08)) in.blockSize = -1;
+    if (tbx::forcedBlockSize()) in.blockSize = tbx::forcedBlockSize();
     in.ogp = r.coin(0.5);
     return in;
 }
@@ -128,7 +130,8 @@ template <class F, class Tree> void checkConstruction(const Tree& tree, const In
     tree.applyToAllLeaves([&](auto& hdr, const long* idx, auto&& data, auto&& rhs) {
         Coord<D> c; for (int d = 0; d < D; ++d) c[d] = hdr.boxCoord[d];
         for (int d = 0; d < D; ++d) if (c[d] < 0 || c[d] >= nl) res.fail(tag + ":leaf-coord-range", "leaf " + vh::astr(c));
-        if (!F::Space::IsPeriodic || true) { if (hdr.spaceIndex != vm::mortonIndex<D>(c, in.geo.H - 1)) res.fail(tag + ":leaf-index-vs-coord", "spaceIndex " + vh::str(hdr.spaceIndex) + " but Morton(coord " + vh::astr(c) + ")=" + vh::str(vm::mortonIndex<D>(c, in.geo.H - 1))); }
+        if constexpr (!F::IsMorton) { std::array<long, D> ca; for (int d = 0; d < D; ++d) ca[d] = c[d]; if (tree.getSpacialSystem().getIndexFromBoxPos(ca) != hdr.spaceIndex) res.fail(tag + ":leaf-index-vs-coord", "spaceIndex and boxCoord are not each other's image under the ordering"); }
+        else { if (hdr.spaceIndex != vm::mortonIndex<D>(c, in.geo.H - 1)) res.fail(tag + ":leaf-index-vs-coord", "spaceIndex " + vh::str(hdr.spaceIndex) + " but Morton(coord " + vh::astr(c) + ")=" + vh::str(vm::mortonIndex<D>(c, in.geo.H - 1))); }
         if (hdr.nbParticles < 1) res.fail(tag + ":empty-leaf", "leaf " + vh::astr(c));
         for (long p = 0; p < hdr.nbParticles; ++p) {
             const long i = idx[p];
@@ -153,7 +156,8 @@ template <class F, class Tree> void checkConstruction(const Tree& tree, const In
     long cells = 0;
     tree.applyToAllCells([&](long L, auto& hdr, auto& m, auto& l) {
         Coord<D> c; for (int d = 0; d < D; ++d) c[d] = hdr.boxCoord[d];
-        if (hdr.spaceIndex != vm::mortonIndex<D>(c, L)) res.fail(tag + ":cell-index-vs-coord", "level " + vh::str(L) + " spaceIndex " + vh::str(hdr.spaceIndex) + " coord " + vh::astr(c));
+        if constexpr (!F::IsMorton) { std::array<long, D> ca; for (int d = 0; d < D; ++d) ca[d] = c[d]; if (tree.getSpacialSystem().getIndexFromBoxPos(ca) != hdr.spaceIndex) res.fail(tag + ":cell-index-vs-coord", "level " + vh::str(L)); }
+        else if (hdr.spaceIndex != vm::mortonIndex<D>(c, L)) res.fail(tag + ":cell-index-vs-coord", "level " + vh::str(L) + " spaceIndex " + vh::str(hdr.spaceIndex) + " coord " + vh::astr(c));
         if (checkZero) {
             if (m && !tbx::allZero(m->get())) res.fail(tag + ":multipole-not-zero", "level " + vh::str(L) + " cell " + vh::astr(c));
             if (l && !tbx::allZero(l->get())) res.fail(tag + ":local-not-zero", "level " + vh::str(L) + " cell " + vh::astr(c));
@@ -194,14 +198,20 @@ template <class F, class Tree> void checkStructure(const Tree& tree, long H, lon
             }
         }
     }
-    // ancestor closure (on coordinates, by the model)
+    // ancestor closure (on coordinates, by the model; for a non-Morton ordering on indices with the documented parent rule)
     for (long L = H - 2; L >= 0; --L) {
-        std::set<Coord<D>> want; for (const auto& c : levelCoord[L + 1]) want.insert(vm::parentOf<D>(c));
-        std::set<Coord<D>> got(levelCoord[L].begin(), levelCoord[L].end());
-        if (got.size() != levelCoord[L].size()) res.fail(tag + ":duplicate-cell", "level " + vh::str(L));
-        if (want != got) {
-            for (const auto& c : want) if (!got.count(c)) { res.fail(tag + ":missing-parent", "level " + vh::str(L) + " cell " + vh::astr(c)); break; }
-            for (const auto& c : got) if (!want.count(c)) { res.fail(tag + ":cell-without-child", "level " + vh::str(L) + " cell " + vh::astr(c)); break; }
+        if constexpr (F::IsMorton) {
+            std::set<Coord<D>> want; for (const auto& c : levelCoord[L + 1]) want.insert(vm::parentOf<D>(c));
+            std::set<Coord<D>> got(levelCoord[L].begin(), levelCoord[L].end());
+            if (got.size() != levelCoord[L].size()) res.fail(tag + ":duplicate-cell", "level " + vh::str(L));
+            if (want != got) {
+                for (const auto& c : want) if (!got.count(c)) { res.fail(tag + ":missing-parent", "level " + vh::str(L) + " cell " + vh::astr(c)); break; }
+                for (const auto& c : got) if (!want.count(c)) { res.fail(tag + ":cell-without-child", "level " + vh::str(L) + " cell " + vh::astr(c)); break; }
+            }
+        } else {
+            std::set<long> want; for (long i : levelIdx[L + 1]) want.insert(tree.getSpacialSystem().getParentIndex(i));
+            std::set<long> got(levelIdx[L].begin(), levelIdx[L].end());
+            if (want != got) res.fail(tag + ":parent-index-closure", "level " + vh::str(L));
         }
     }
     // leaf cell groups <-> particle groups
